@@ -235,6 +235,9 @@ func C17(c *vf.Check) {
 		if jobs[i].Idx >= nterms && status[jobs[i].Idx-nterms] != "" {
 			continue
 		}
+		if r.Status == "notrun" {
+			continue
+		}
 		if r.Status != "ok" {
 			c.Violation(J{"case": m.what, "prefix": m.prefix, "pattern": m.pattern, "repeat": jobs[i].Repeat, "status": r.Status, "detail": r.Crash},
 				fmt.Sprintf("%s with tape %v + %v x %d: the advance did not finish (%s) %s", m.what, m.prefix, m.pattern, jobs[i].Repeat, r.Status, vf.Trunc(firstLine(r.Crash), 200)))
